@@ -63,6 +63,7 @@ type World struct {
 	ignoreContracts map[*ssa.Function]bool
 	lockTags   []string
 	relyTags   map[string][]string
+	lockRelies map[string][]LockRely
 	deterministicIface map[string]bool
 }
 
@@ -71,7 +72,7 @@ const contractsFile = "zz_contracts_verif.go"
 // Load type-checks the packages with the ghost overlay and builds SSA.
 func Load(repo string, pkgPatterns []string, contractsMirror string) (*World, error) {
 	w := &World{repo: repo, spkgs: map[string]*ssa.Package{}, scope: map[string]bool{}, contracts: map[*ssa.Function]*LoadedContract{},
-		byName: map[string]*LoadedContract{}, lemmas: map[string]*LoadedLemma{}, relies: map[string]string{}, guards: map[string]string{},
+		byName: map[string]*LoadedContract{}, lemmas: map[string]*LoadedLemma{}, relies: map[string]string{}, guards: map[string]string{}, lockRelies: map[string][]LockRely{},
 		frames: map[*ssa.Function]*frameInfo{}, frameBusy: map[*ssa.Function]bool{}, implCache: map[string][]implInfo{}, spawnIDs: map[string]int{},
 		cloTab: map[*Exec]map[string]*Closure{}, ignoreContracts: map[*ssa.Function]bool{}, deterministicIface: map[string]bool{}}
 	overlay := map[string][]byte{}
@@ -145,6 +146,9 @@ func Load(repo string, pkgPatterns []string, contractsMirror string) (*World, er
 		}
 		for k, v := range sf.Guards {
 			w.guards[k] = v
+		}
+		for _, lr := range sf.LockRelies {
+			w.lockRelies[lr.Lock] = append(w.lockRelies[lr.Lock], lr)
 		}
 		for _, d := range sf.Deterministic {
 			w.deterministicIface[d] = true
